@@ -78,8 +78,8 @@ def valgrind(ctx, res, prop, invocations, timeout=300):
         res.inconclusive["valgrind not available"] = 1
         return
     exe = common.cli_bin(ctx)
-    wrapper = [vg, "-q", "--error-exitcode=97", "--leak-check=full", "--errors-for-leak-kinds=definite",
-               "--show-leak-kinds=definite"]
+    # leaks are not errors here: the CLI deliberately leaks the source text for 'static lifetime
+    wrapper = [vg, "-q", "--error-exitcode=97", "--leak-check=no"]
 
     def one(inv):
         args, stdin, cwd = inv
@@ -90,8 +90,8 @@ def valgrind(ctx, res, prop, invocations, timeout=300):
         res.evaluations += 1
         res.cls("valgrind_runs")
         text = r.err.decode("utf-8", "replace")
-        if r.rc == 97 or "Invalid read" in text or "Invalid write" in text or "definitely lost" in text:
-            first = next((l for l in text.splitlines() if l.startswith("==") and ("Invalid" in l or "lost" in l or "uninitialised" in l)), "memcheck report")
+        if r.rc == 97 or "Invalid read" in text or "Invalid write" in text or "Invalid free" in text or "uninitialised value" in text:
+            first = next((l for l in text.splitlines() if l.startswith("==") and ("Invalid" in l or "uninitialised" in l or "Mismatched" in l)), "memcheck report")
             res.violate("%s/valgrind/%s" % (prop, first.split("== ")[-1][:40].replace(" ", "-")),
                         "memcheck: %s" % first, {"argv": args, "stderr_tail": text[-2500:]})
     res.extra["valgrind"] = {"invocations": n}
